@@ -47,7 +47,7 @@ func vkEmbedPrefixes() []vkPfx {
 			out = append(out, vkPfx{"2001:db8:1234:5678:9a:bcde:f012:3456/96", n}) // host bits set
 		} else {
 			out = append(out, vkPfx{fmt.Sprintf("ffff:ffff:ffff:ffff:ffff:ffff:ffff:ffff/%d", n), n}) // all ones incl. host bits and byte 8
-			out = append(out, vkPfx{fmt.Sprintf("2001:db8:1234:5678:9abc:def0:1234:5678/%d", n), n})    // pattern, host bits and byte 8 set
+			out = append(out, vkPfx{fmt.Sprintf("2001:db8:1234:5678:9abc:def0:1234:5678/%d", n), n})  // pattern, host bits and byte 8 set
 			out = append(out, vkPfx{fmt.Sprintf("a5a5:5a5a:c3c3:3c3c::/%d", n), n})
 		}
 	}
